@@ -638,7 +638,10 @@ fn explore_subject(run: &mut Run, tier: Tier, id: &str, deadline: Instant, part:
     if !only_bound2 {
         println!("{}", reference.hash_line(id));
     }
-    run.gate(&format!("{}: circuit compiles to domain 2^{}", id, subj.log_n), (reference.constraints + 6).next_power_of_two() == 1 << subj.log_n);
+    // padded subjects leave room for the 6 blinding rows inside 2^log_n; domain-filling
+    // subjects (`f*`) have exactly 2^log_n constraints
+    let domain_ok = if id.starts_with('f') { reference.constraints == 1 << subj.log_n } else { (reference.constraints + 6).next_power_of_two() == 1 << subj.log_n };
+    run.gate(&format!("{}: circuit compiles to domain 2^{}", id, subj.log_n), domain_ok);
 
     let mut seen: HashSet<String> = HashSet::new();
     let mut any_r = false;
